@@ -100,6 +100,7 @@ SpecialFirst(k, p) == LET c == SubSeq(k, Len(p) + 1, Len(p) + 1) IN c = "$" \/ c
 (* ---------------------------------------------------------------- walk state *)
 (* seg: [init, toff, pc, mem]   mem: function written address -> byte             *)
 (* rlo/rhi: the range the implementation keeps (grown by every emission, also an empty one; touched = data allocated) *)
+NoSegmentError == TRUE
 NewSeg(init, target) == [init |-> init, toff |-> target - init, pc |-> init, mem |-> <<>>, rlo |-> init, rhi |-> init, touched |-> FALSE]
 TPc(st) == LET s == st.segs[st.cur] IN s.pc + s.toff
 HasSeg(st) == st.cur # "" /\ st.cur \in DOMAIN st.segs
@@ -112,7 +113,11 @@ Err(st, e) == [st EXCEPT !.errs = @ \cup {e}]
 Unspec(st) == [st EXCEPT !.unspec = TRUE]
 
 Emit(st, bytes, sid) ==
-  IF ~HasSeg(st) THEN st
+  IF ~HasSeg(st)
+    THEN (* no segment at all: the first pass of a program that relies on the default segment emits nothing.  But code in front
+            of the first `.define segment' of a program that defines its own has nowhere to go in any pass: a diagnostic
+            (NoSegmentError = FALSE is the pinned reading: such statements were dropped in silence) *)
+         IF NoSegmentError /\ DOMAIN st.segs # {} /\ bytes # <<>> THEN Err(st, [k |-> "nosegment", sid |-> sid]) ELSE st
   ELSE LET s == st.segs[st.cur]
            n == Len(bytes) IN
        IF s.pc > 65535 \/ s.pc + n > 65536 THEN Err(st, [k |-> "range", sid |-> sid])
